@@ -152,6 +152,8 @@ FIXED_GRAPHS = {
                                  ("Box", "class Box:\n    def __init__(self, u):\n        self.x = u.boxed\n        self.y = 1\n")],
     "same_callee_two_keyword_values": [("top", "def top(a, b, c):\n    put(a, k=b)\n    put(a, k=c)\n"),
                                        ("put", "def put(x, k=None):\n    k.seen = 1\n    x.touched\n")],
+    "static_method_order": [("K", "class K:\n    def __init__(self, u):\n        self.h = u.i\n\n    @staticmethod\n    def sm(v):\n        return v.static_attr\n"),
+                            ("use", "def use(a):\n    return K.sm(a)\n")],
     "zero_arg_callees": [("reset", "def reset():\n    REG.ready = 1\n"), ("tag", "def tag(item):\n    item.seen = 1\n"),
                          ("run", "def run(item):\n    reset()\n    tag(item)\n"), ("again", "def again(item):\n    reset()\n    tag(item)\n")],
 }
